@@ -311,5 +311,27 @@ func init() {
 				}
 			}
 		}
+		// break / continue inside the block of a block helper that stands in a loop body: inline, they end
+		// the iteration keeping what it produced so far.  (Through the helper the control value is what
+		// the block evaluates to and the helper's text is lost: known finding c17-control-in-helper-block.)
+		{
+			extra := map[string]interface{}{"wrap": func(h plush.HelperContext) (template.HTML, error) {
+				s, err := h.Block()
+				return template.HTML(s), err
+			}}
+			for _, ctl := range []string{"continue", "break"} {
+				body := "a<%= x %><% " + ctl + " %>b"
+				viaHelper := "<%= for (x) in [1, 2] { %>[<%= wrap() { %>" + body + "<% } %>]<% } %>"
+				inline := "<%= for (x) in [1, 2] { %>[" + body + "]<% } %>"
+				o := runRenderExtra(RCase{Tmpl: viaHelper}, extra)
+				in := runRenderExtra(RCase{Tmpl: inline}, extra)
+				e.rep.Evaluations += 2
+				e.Count("control-in-helper-block")
+				e.Distinct(viaHelper)
+				if in.Class == "OK" && (o.Class != "OK" || o.Out != in.Out) {
+					e.Violate("c17-control-in-helper-block", fmt.Sprintf("%s rendered %q (%s %s), the same source inline gives %q", viaHelper, o.Out, o.Class, firstLine(o.Msg), in.Out), map[string]interface{}{"tmpl": viaHelper, "observed": o, "inline": inline})
+				}
+			}
+		}
 	})
 }
